@@ -75,6 +75,7 @@ ASSUMPTIONS = [
 ETA = Fr(1, 10 ** 6)          # relative guard band around the 0.1-px inset
 N_QUICK = 5600
 N_THOROUGH = 120000
+CALL_BUDGET = 5000            # process() calls per run before a case is given up as inconclusive
 MAX_CELLS = 400               # generated tasks are kept below this many meta tiles (flat estimate)
 REAL_ALL_K = 30               # really interrupted runs for every k up to this many process() calls, 16 sampled k above
 MAX_STATES = 40               # continued runs per case (distinct progress-file states)
@@ -151,6 +152,11 @@ class _RunCtx(object):
         self.interrupted = False
 
 
+class _Runaway(Exception):
+    """the walk hands far more tile sets than the task has meta tiles (only seen with defective walkers that recurse
+    into the same area again and again): the case is given up as inconclusive, a budget never decides a verdict"""
+
+
 class _RecorderPool(object):
     """stands in for seeder.TileWorkerPool: records what is handed to process()"""
     ctx = None
@@ -161,6 +167,8 @@ class _RecorderPool(object):
 
     def process(self, tiles, progress):
         c = _RecorderPool.ctx
+        if len(c.handed) >= CALL_BUDGET:
+            raise _Runaway()
         c.states.append(_read_file(c.store_path))
         if c.interrupt_at is not None and len(c.handed) == c.interrupt_at:
             c.interrupted = True
@@ -305,6 +313,8 @@ class Env(object):
                                 skip_geoms_for_last_levels=self.case['skip'], progress_logger=plog)
                 except GridError:
                     outcome = 'grid-error'
+                except _Runaway:
+                    outcome = 'runaway'
                 except (seeder.SeedInterrupted, KeyboardInterrupt):
                     if not ctx.interrupted:
                         raise
@@ -879,6 +889,9 @@ def evaluate(case, st_, excuse=(), size_guard=True):
             cl.append('outcome:aborted-GridError')
             info['aborted'] = True
             return out, info
+        if full.outcome == 'runaway':
+            st_.inconclusive['walk-exceeds-%d-process-calls' % CALL_BUDGET] += 1
+            return out, None
         if full.outcome != 'complete':
             raise core.HarnessError('uninterrupted run ended with %r' % full.outcome)
         n_required, handed_cells = check_handed(env, full, pyrs, covs, Es, excuse, st_, out)
@@ -980,6 +993,8 @@ def evaluate(case, st_, excuse=(), size_guard=True):
 
 
 def _judge_resume(out, case, full, full_set, k, done, b, where, first_index=None):
+    if b.outcome == 'runaway':
+        return
     if b.outcome != 'complete':
         out.setdefault(SIG_RESUME_ABORT, 'the run continued from the progress saved before interruption %s ended with %s'
                        % (where, b.outcome))
